@@ -427,9 +427,6 @@ func VerifC19_AddVersionHistory() {
 	reg := c19Registry("/s/updates")
 	res := reg.newResource("a/b.zip")
 	steps := 3
-	if rt.Thorough() {
-		steps = 4
-	}
 	n := rt.Len("calls", 1, steps)
 	current := -1 // rank of the version named by the latest current-release call
 	avail := map[int]bool{}
